@@ -37,26 +37,37 @@ def gen_case(rng, idx, tier):
         V = gen.kv(rng, pmax=3, nintmax=3, itv=(a, b))
         inside = False
     q, m = ref.wellformed(V)
-    nodes = None
-    if rng.random() < 0.4:
+    def nodeset():
+        if rng.random() < 0.45:
+            return None
         cnt = rng.randint(1, m)
         pool = sorted(set(ref.distinct(V)) | {a + (b - a) * F(i, 17) for i in range(1, 17)})
-        nodes = sorted(rng.sample(pool, min(cnt, len(pool))))
+        return sorted(rng.sample(pool, min(cnt, len(pool))))
+
+    # the same (source, target) pair is fitted 1-3 times with different node sets in one process: an answer must not
+    # depend on what was asked before
+    sets = [nodeset() for _ in range(rng.choice([1, 2, 2, 3]))]
     d = cv.enc_curve(src, nt)
-    d.update(V=lib.enc(V), nodes=lib.enc(nodes), inside=inside)
+    d.update(V=lib.enc(V), nodesets=lib.enc(sets), inside=inside)
     return d
 
 
 def run_case(case, ctx):
-    from compmec.nurbs import Curve
-
     U, P, W, nt = cv.dec_curve(case)
     b = cv.build(ctx, case)
     if b is None:
         return
     C, rc, exact = b
+    sets = lib.dec(case["nodesets"]) if "nodesets" in case else [lib.dec(case["nodes"])]
+    for k, nodes in enumerate(sets):
+        one_fit(case, ctx, C, rc, exact, nodes, k)
+
+
+def one_fit(case, ctx, C, rc, exact, nodes, round_):
+    from compmec.nurbs import Curve
+
+    U, P, W, nt = cv.dec_curve(case)
     V = lib.dec(case["V"])
-    nodes = lib.dec(case["nodes"])
     Vn = lib.nums(V, nt)
     Vq = [ref.fr(x) for x in Vn]
     q, m = ref.wellformed(Vq)
@@ -64,6 +75,8 @@ def run_case(case, ctx):
     maxmV = max([mm for _, mm in ref.runs(Vq)[1:-1]] or [0])
     maxmU = max([mm for _, mm in ref.runs(rc.U)[1:-1]] or [0])
     disc = (maxmV == q + 1) or (maxmU == rc.p + 1) or ((q == 0 or rc.p == 0) and (len(ref.distinct(Vq)) > 2 or len(rc.breaks()) > 2))
+    if round_ == 0:
+        ctx.cls(f"fits{len(lib.dec(case['nodesets'])) if 'nodesets' in case else 1}")
     ctx.cls(f"pC{rc.p}|pS{q}|{'in' if case['inside'] else 'generic'}|{'nodes' if nodes else 'free'}|{'uniform' if uniform else 'nonuniform'}|{'disc' if disc else 'cont'}|{nt}|dim{rc.dim}")
     ctx.mark_nontrivial(len(ref.distinct(Vq)) > 2 or len(rc.breaks()) > 2)
     judged = exact or (gen.well_conditioned(U) and gen.well_conditioned(V))
